@@ -58,6 +58,23 @@ CHECKS = {
               "proof_same/stmt_same/key_same facts are harness byte comparisons; panics count as violations."),
         technique="TLA+/TLC model checking of FiatShamir with an adversary + spec-derived fault enumeration validated as traces",
     ),
+    "C04": dict(
+        category="model_checking",
+        text=("NativeOps.tla defines the domain and the outputs of every native-gadget operation (arithmetic, linear "
+              "combinations, inversion/division, zero/equality tests, boolean logic, select/swap, bit and byte "
+              "decomposition and recomposition, bounded comparison, sign, range checks incl. successive checks on one "
+              "cell, div_rem, bitwise ops) over Z/12289 and enumerates operation x parameter x boundary-input "
+              "scenarios. The real generic NativeGadget code runs over the same toy field under MockProver with inputs "
+              "and outputs exposed; the values the circuit itself binds to the instance column are extracted from its "
+              "copy constraints. Native_Trace recomputes Dom/Def in TLC and demands completeness and the soundness game "
+              "'satisfiable => exposed outputs = Def(exposed inputs) and inputs in Dom' for honest runs and for tamper "
+              "plans in which the guarded hook H1 replaces the i-th advice assignment consistently (every index x "
+              "faults +1, -1, 0, 1-v, v+2^j)."),
+        design_ref="DESIGN.md 4/C04",
+        note=("Toy field 12289 (generic code); single consistent fault per run; MockProver judges satisfiability; the "
+              "exhaustive tiny-field assignment search of DESIGN decision 1 and the vector/map gadgets are not built."),
+        technique="TLA+/TLC-computed definitions over a toy field + replay of the real generic gadgets with consistent tamper plans, validated by a trace spec",
+    ),
     "C14": dict(
         category="model_checking",
         text=("KzgMultiOpen (construct_intermediate_sets as a function of the query LIST, symbolic acceptance) is "
@@ -200,7 +217,7 @@ def main():
             "guard": "midnight_zk_verif",
             "enable": "rustflags --cfg midnight_zk_verif in /verif/harness/.cargo/config.toml (the harness builds /repo's crates as path dependencies)",
             "baseline_off_cmd": "cd /repo && cargo nextest run --workspace --no-fail-fast --test-threads 8 --offline || cargo test --workspace --no-fail-fast --offline",
-            "source_commits": [],
+            "source_commits": ["e28cdc2"],
             "add_only": True,
         },
         "engines": [
